@@ -565,7 +565,12 @@ def discrete_SIR(G, test_transmission=_simple_test_transmission_, args=(), test_
             initial_number = 1
         else:
             initial_number = int(round(G.order()*rho))
-        initial_infecteds=random.sample(list(G), initial_number)
+        if initial_recovereds is None:
+            candidates = list(G)
+        else: #a randomly chosen initial infection must not be an initially recovered node
+            initial_recovereds = list(initial_recovereds)
+            candidates = [node for node in G if node not in initial_recovereds]
+        initial_infecteds=random.sample(candidates, initial_number)
     elif G.has_node(initial_infecteds):
         initial_infecteds=[initial_infecteds]
     #else it is assumed to be a list of nodes.
@@ -2334,7 +2339,12 @@ def fast_nonMarkov_SIR(G, trans_time_fxn=None,
             initial_number = 1
         else:
             initial_number = int(round(G.order()*rho))
-        initial_infecteds=random.sample(list(G), initial_number)
+        if initial_recovereds is None:
+            candidates = list(G)
+        else: #a randomly chosen initial infection must not be an initially recovered node
+            initial_recovereds = list(initial_recovereds)
+            candidates = [node for node in G if node not in initial_recovereds]
+        initial_infecteds=random.sample(candidates, initial_number)
     elif G.has_node(initial_infecteds):
         initial_infecteds=[initial_infecteds]
     #else it is assumed to be a list of nodes.
@@ -3160,7 +3170,12 @@ def Gillespie_SIR(G, tau, gamma, initial_infecteds=None,
             initial_number = 1
         else:
             initial_number = int(round(G.order()*rho))
-        initial_infecteds=random.sample(list(G), initial_number)
+        if initial_recovereds is None:
+            candidates = list(G)
+        else: #a randomly chosen initial infection must not be an initially recovered node
+            initial_recovereds = list(initial_recovereds)
+            candidates = [node for node in G if node not in initial_recovereds]
+        initial_infecteds=random.sample(candidates, initial_number)
     elif G.has_node(initial_infecteds):
         initial_infecteds=[initial_infecteds]
         
